@@ -11,7 +11,8 @@ caught = sys.argv[4:]
 dst = os.path.join(os.path.dirname(os.path.dirname(os.path.abspath(__file__))), "seeded", name)
 os.makedirs(dst, exist_ok=True)
 for f in ("patch.diff", "demo.py"):
-    shutil.copy(os.path.join(src, f), os.path.join(dst, f))
+    if os.path.abspath(src) != os.path.abspath(dst):
+        shutil.copy(os.path.join(src, f), os.path.join(dst, f))
 meta = json.load(open(os.path.join(src, "meta.json")))
 meta["breaks_property"] = meta.get("property")
 meta["confirmed"] = {
